@@ -346,3 +346,117 @@ func c16ManyInFlight(rep *Report, prop, api string, n int) {
 	default:
 	}
 }
+
+// c04LateErrorResponse (C04): a call is ended by its own context while its handler runs; the abandoned handler then
+// FAILS — the late response carries an error message, and nobody waits for it. It is dropped like any late response:
+// the sibling call in flight, later calls and both links are unaffected.
+func c04LateErrorResponse(rep *Report, prop string) {
+	for _, api := range apis() {
+		for _, dir := range []string{"A->B", "B->A"} {
+			rep.Evaluations++
+			rep.Distinct++
+			d := map[string]any{"suite": "C04-late-error-response", "api": api, "dir": dir}
+			if msg := c04LateErrorOnce(api, dir); msg != "" {
+				rep.addViolation("property", prop+":late-error-response:"+api, msg, d)
+			}
+		}
+	}
+}
+
+func c04LateErrorOnce(api, dir string) string {
+	p, err := NewPair(jsonRaw(), PairOpts{API: api})
+	if err != nil {
+		return "setup: " + err.Error()
+	}
+	defer p.Shutdown()
+	rem, _, _ := p.A.AnyRemote()
+	callee := p.B
+	if dir == "B->A" {
+		rem, _, _ = p.B.AnyRemote()
+		callee = p.A
+	}
+	defer callee.Svc.OpenGate(43)
+	defer callee.Svc.OpenGate(44)
+	parked := func(method, id string) bool {
+		for _, inv := range callee.Svc.Invocations() {
+			if inv.Method == method && inv.Args == id {
+				return true
+			}
+		}
+		return false
+	}
+	sib := make(chan callResult, 1)
+	go func() { v, err := rem.Gate(context.Background(), 43); sib <- callResult{true, v, err} }()
+	waitFor(func() bool { return parked("Gate", "43") })
+	ctx, cancel := context.WithCancel(context.Background())
+	defer cancel()
+	go func() {
+		waitFor(func() bool { return parked("GateErr", "44") })
+		cancel()
+	}()
+	r := withWatchdog(func() (any, error) { return rem.GateErr(ctx, 44) })
+	if !r.ok {
+		return "a call cancelled while its handler was running did not return"
+	}
+	if !errors.Is(r.err, context.Canceled) {
+		return fmt.Sprintf("a call cancelled while its handler was running returned (%v, %v); want the context's error", r.val, r.err)
+	}
+	callee.Svc.OpenGate(44) // the abandoned handler fails now: an error response nobody waits for
+	time.Sleep(30 * time.Millisecond)
+	if e := withWatchdog(func() (any, error) { return rem.Echo(context.Background(), 5, "after the late error") }); !e.ok || e.err != nil {
+		return fmt.Sprintf("after the late ERROR response of a cancelled call a later call fails: %+v", e)
+	}
+	callee.Svc.OpenGate(43)
+	select {
+	case s := <-sib:
+		if s.err != nil || s.val.(int) != 43 {
+			return fmt.Sprintf("the sibling call in flight when the late ERROR response of a cancelled call arrived returned (%v, %v), want (43, nil)", s.val, s.err)
+		}
+	case <-time.After(watchdog):
+		return "the sibling call never returned after the late ERROR response of a cancelled call"
+	}
+	select {
+	case e := <-p.A.LinkErr:
+		return fmt.Sprintf("the late ERROR response of a cancelled call ended the link: Link returned %q", e)
+	case e := <-p.B.LinkErr:
+		return fmt.Sprintf("the late ERROR response of a cancelled call ended the peer's link: Link returned %q", e)
+	default:
+	}
+	return ""
+}
+
+// c16CauseContexts (C16): the link's context carries a CAUSE (context.WithCancelCause / WithTimeoutCause). What Link
+// returns on cancellation is the context's ERROR (context.Canceled / context.DeadlineExceeded), as for any context.
+func c16CauseContexts(rep *Report, prop string) {
+	for _, api := range apis() {
+		for _, how := range []string{"cancel-cause", "timeout-cause"} {
+			rep.Evaluations++
+			rep.Distinct++
+			d := map[string]any{"suite": "C16-context-with-cause", "api": api, "context": how}
+			opts := PairOpts{API: api, LinkCauseB: errors.New("service is shutting down")}
+			want := context.Canceled
+			if how == "timeout-cause" {
+				opts.LinkDeadlineB = 150 * time.Millisecond
+				want = context.DeadlineExceeded
+			}
+			p, err := NewPair(jsonRaw(), opts)
+			if err != nil {
+				rep.addViolation("property", prop+":cause-context:setup", "link setup failed: "+err.Error(), d)
+				continue
+			}
+			if how == "cancel-cause" {
+				time.Sleep(10 * time.Millisecond) // an idle, healthy link
+				p.B.Cancel()
+			}
+			select {
+			case e := <-p.B.LinkErr:
+				if !errors.Is(e, want) {
+					rep.addViolation("property", prop+":cause-context:"+api+":"+how, fmt.Sprintf("the link's context (%s, cause \"service is shutting down\") ended: Link returned %q, want the context's error %q", how, fmt.Sprint(e), want), d)
+				}
+			case <-time.After(watchdog):
+				rep.addViolation("property", prop+":cause-context:"+api+":"+how+":hang", "Link did not return after its context (with a cause) ended", d)
+			}
+			p.Shutdown()
+		}
+	}
+}
